@@ -185,7 +185,7 @@ prop("C08", modules=["crash"],
                                   "exists_versioned", "input_nonversioned", "input_versioned")]
      + ["storage_base:DataSourceMetadataSource.get_mementos", "storage_base:Codec.BlobStrategy.store", SBB + "memoize"],
      assume_props=["C05", "C06", "C07", "C19"], custom_replay="crash_replay", extra_checks=["contracts.extra:crash_faults"],
-     function_modules={"storage_base:Codec.BlobStrategy.store": ["codec"], SBB + "memoize": ["storage", "codec"]},
+     function_modules={"storage_base:Codec.BlobStrategy.store": ["codec"], SBB + "memoize": ["storage"]},
      design_ref="DESIGN.md section 6, C08",
      trusted=["OS model: the assumed contracts of open / write / close / os.replace / os.makedirs / uuid4 (contracts/crash.py header)",
               "path algebra: link, version-file and temporary paths are disjoint families with the inverses pathlib gives (memento's key space)",
